@@ -878,7 +878,31 @@ def poller_stream(chk, wd):
                        'readables': res[1], 'writables': res[2], 'registry': res[3],
                        'explanation': 'coq/Life/Poller.v, about which the c06_poll_* theorems are proved, predicts other answers'},
                       nofail=True)
-    return len(cases), hits + len(bad)
+    # KQueuePoller over a scripted select.kqueue (there is no kqueue on Linux; the class is plain Python)
+    kcases, kkept = [], []
+    khist = list(pc.kq_exhaustive(2 if chk.tier == 'quick' else 3)) + [pc.kq_random_history(chk.rng) for _ in range(nrand)]
+    for ops in khist:
+        res = pc.run_kq_history(ops)
+        chk.dist('poller:kqueue')
+        for o, a in zip(ops, res[0]):
+            if o[0] == 'poll' and o[1] == ('err', pc.EINTR) and a != ('ready', [], []):
+                hits += 1
+                if hits <= 3:
+                    chk.violation({'kind': 'poller: an interrupted readiness call (EINTR) is not answered with ([], [])',
+                                   'poller': 'KQueuePoller', 'ops': ops, 'answers': res[0]})
+        kcases.append(pc.kq_case_term(ops, res))
+        kkept.append((ops, res))
+    kbad, kerrs = vlib.coq_compare(['SV.Life.Poller'], 'kcase', 'check_kcase', kcases, wd, preamble='Open Scope Z_scope.',
+                                   shard=400, tag='kqueue')
+    for e in kerrs[:2]:
+        chk.violation({'kind': 'poller model evaluation failed', 'error': e}, nofail=True)
+    for i in kbad[:3]:
+        ops, res = kkept[i]
+        chk.violation({'kind': 'poller model and implementation disagree on this history', 'poller': 'KQueuePoller', 'ops': ops,
+                       'answers': res[0], 'readables': res[1], 'writables': res[2], 'registry': res[3],
+                       'explanation': 'coq/Life/Poller.v (kq_step), about which the c06_kqueue_* theorems are proved, predicts other answers'},
+                      nofail=True)
+    return len(cases) + len(kcases), hits + len(bad) + len(kbad)
 
 
 def pool_script(rng):
